@@ -517,6 +517,9 @@ func (a *Analyzer) Feed(r *ev.Rec) {
 		}
 	case "harness-error":
 		a.rep.Inconclusive = append(a.rep.Inconclusive, "harness error: "+r.Err)
+	case "wire-truncated":
+		a.stat("bursts-cut-in-the-middle")
+		a.lastWire = nil // the requests announced last did not arrive whole
 	case "wire-id":
 		a.wireIDs[r.ID] = true
 		if r.Src != 0 {
